@@ -957,9 +957,9 @@ func romFeatures(cs *romCase) []string {
 
 func romTierCounts(tier string) (nTie, nBig, nFals, maxOps int) {
 	if tier == "thorough" {
-		return 12000, 60, 400000, 60
+		return 8000, 48, 300000, 48
 	}
-	return 1400, 10, 30000, 22
+	return 1100, 10, 30000, 22
 }
 
 func romAllCases(tier string, seed uint64, corpus string, forTie bool, classes map[string]int) []*romCase {
